@@ -206,4 +206,105 @@ theorem SStr.run_spec (s : SStr) (f : File Char) (ops : List (Op Char)) (h : SRe
     simp only [SStr.run, Spec.run]
     exact ⟨by rw [hs.1, this.1], this.2⟩
 
+/-! ### default `io.StringIO()` (lines end at LF only) on texts without a lone CR -/
+
+theorem noLoneCR_tail (c : Char) (cs : List Char) (h : noLoneCR (c :: cs) = true) : noLoneCR cs = true := by
+  simp only [noLoneCR, Bool.and_eq_true] at h; exact h.2
+
+theorem firstLine_lf (l : List Char) (h : noLoneCR l = true) : firstLine false l = takeLine isLF l := by
+  induction l with
+  | nil => rfl
+  | cons c cs ih =>
+    have ht := noLoneCR_tail c cs h
+    by_cases hcr : c = '\r'
+    · subst hcr
+      cases cs with
+      | nil => simp [noLoneCR] at h
+      | cons d cs' =>
+        have hd : d = '\n' := by
+          simp only [noLoneCR, Bool.and_eq_true] at h; simpa using h.1
+        subst hd
+        simp [firstLine, takeLine, isLF]
+    · by_cases hlf : c = '\n'
+      · subst hlf; simp [firstLine, takeLine, isLF, isBrk]
+      · have h1 : firstLine false (c :: cs) = c :: firstLine false cs := by simp [firstLine, hcr, isBrk, hlf]
+        have h2 : takeLine isLF (c :: cs) = c :: takeLine isLF cs := by simp [takeLine, isLF, hlf]
+        rw [h1, h2, ih ht]
+
+theorem splitLines_lf_cons (c : Char) (cs : List Char) (hc : c ≠ '\n') (hcs : cs ≠ []) :
+    splitLines isLF (c :: cs) = (c :: (splitLines isLF cs).headD []) :: (splitLines isLF cs).tail := by
+  cases cs with
+  | nil => exact absurd rfl hcs
+  | cons d ds =>
+    have hne : splitLines isLF (d :: ds) ≠ [] := by
+      unfold splitLines; split
+      · simp
+      · split <;> simp
+    cases hs : splitLines isLF (d :: ds) with
+    | nil => exact absurd hs hne
+    | cons l ls =>
+      rw [splitLines, if_neg (by simp [isLF, hc]), hs]; rfl
+
+theorem splitL_lf (l : List Char) (h : noLoneCR l = true) : splitL false l = splitLines isLF l := by
+  fun_induction splitL false l with
+  | case1 => rfl
+  | case2 cs' ih =>
+    have h2 : noLoneCR cs' = true := noLoneCR_tail _ _ (noLoneCR_tail _ _ h)
+    rw [ih h2]
+    simp [splitLines, isLF]
+  | case3 d cs' hd ih =>
+    have : d = '\n' := by
+      simp only [noLoneCR, Bool.and_eq_true] at h; simpa using h.1
+    exact absurd this hd
+  | case4 => simp [noLoneCR] at h
+  | case5 c cs hc hb ih =>
+    have hlf : c = '\n' := by simpa [isBrk] using hb
+    subst hlf
+    rw [ih (noLoneCR_tail _ _ h)]
+    simp [splitLines, isLF]
+  | case6 c cs hc hb hs ih =>
+    have hlf : c ≠ '\n' := by simpa [isBrk] using hb
+    have hcs : cs = [] := splitL_eq_nil false cs hs
+    subst hcs
+    simp [splitLines, isLF, hlf]
+  | case7 c cs hc hb l' ls hs ih =>
+    have hlf : c ≠ '\n' := by simpa [isBrk] using hb
+    have hcs : cs ≠ [] := by intro h0; subst h0; simp [splitL] at hs
+    rw [splitLines_lf_cons c cs hlf hcs, ← ih (noLoneCR_tail _ _ h), hs]
+    rfl
+
+/-- where the line-cutting operations meet no lone CR, io.StringIO(newline='') and the default io.StringIO() agree -/
+theorem Spec.step_lf (f : File Char) (op : Op Char) (hp : lfOp f op = true) :
+    Spec.step textSem f op = Spec.step lfSem f op := by
+  cases op with
+  | readline =>
+    simp only [lfOp] at hp
+    simp only [Spec.step, textSem, lfSem, firstLine_lf f.rest hp]
+  | next =>
+    simp only [lfOp] at hp
+    simp only [Spec.step, Spec.next, textSem, lfSem, firstLine_lf f.rest hp]
+    rfl
+  | readlineN n =>
+    simp only [lfOp] at hp
+    simp only [Spec.step, textSem, lfSem, firstLine_lf f.rest hp]
+  | readlines =>
+    simp only [lfOp] at hp
+    simp only [Spec.step, textSem, lfSem, splitL_lf f.rest hp]
+  | list =>
+    simp only [lfOp] at hp
+    simp only [Spec.step, textSem, lfSem, splitL_lf f.rest hp]
+  | drain =>
+    simp only [lfOp] at hp
+    simp only [Spec.step, textSem, lfSem, splitL_lf f.rest hp]
+  | _ => rfl
+
+theorem Spec.run_lf (f : File Char) (ops : List (Op Char)) (hp : lfOnly f ops = true) :
+    Spec.run textSem f ops = Spec.run lfSem f ops := by
+  induction ops generalizing f with
+  | nil => rfl
+  | cons op ops ih =>
+    simp only [lfOnly, Bool.and_eq_true] at hp
+    simp only [Spec.run]
+    rw [← Spec.step_lf f op hp.1, ih _ hp.2]
+
 end C18
